@@ -297,4 +297,285 @@ theorem createTail_cons {s : St} (hc : Consistent s) (pp : Path) (n : Name) (isM
         (by rw [hloc]; simp) []
       exact this.congr (by rw [hd3, hdisk2]) (by rw [hm3, hmem2])
 
+/-- `copy_node_up` with everything it guarantees on success -/
+theorem copyNodeUp_spec (p : Path) (s : St) (hc : Consistent s) :
+    Outcome (copyNodeUp p s) (fun _ s' => CUD p s s') (fun s' => Consistent s') := by
+  unfold copyNodeUp
+  cases hm : s.mem p with
+  | none => rw [bind_err (getNode_err hm)]; exact hc
+  | some m =>
+    rw [bind_ok (getNode_ok hm)]
+    by_cases hmu : m.inUpper = true
+    · simp only [hmu, if_true]
+      have hu : s.disk.upper.isSome := by
+        cases h : s.disk.upper with
+        | none => have := no_upper_not_inUpper hc h hm; rw [this] at hmu; cases hmu
+        | some L => rfl
+      exact ⟨hc, ⟨m, hm, hmu⟩, rfl, hu, fun _ _ => rfl, fun p' m0 h => ⟨m0, h, rfl, rfl⟩⟩
+    · simp only [hmu, Bool.false_eq_true, if_false]
+      simp only [Bool.not_eq_true] at hmu
+      have hst := nodeStat_eq hc hm
+      cases hr : m.reals with
+      | nil => rw [hr] at hst; rw [bind_err hst]; exact hc
+      | cons r rest =>
+        rw [hr] at hst
+        rw [bind_ok hst]
+        cases hup : s.disk.upper with
+        | none =>
+          have := copyNodeUp_cons p s hc
+          -- without an upper layer it fails; reuse the triple
+          by_cases hd : (s.disk.statReal r).isDir = true
+          · obtain ⟨e, he⟩ := createUpperDir_noUpper p s hc hup
+            simp only [hd, if_true, he]
+            exact hc
+          · simp only [hd, Bool.false_eq_true, if_false]
+            cases p with
+            | nil => exact hc
+            | cons n pp =>
+              obtain ⟨pm, hpm, _⟩ := hc.reach n pp m hm
+              have hpnu := no_upper_not_inUpper hc hup hpm
+              obtain ⟨e, he⟩ := createUpperDir_noUpper pp s hc hup
+              have : parentUpperReal pp s = .err e s := by
+                unfold parentUpperReal
+                rw [bind_ok (getNode_ok hpm), show (!pm.inUpper) = true by simp [hpnu], whenM_true, bind_err he]
+              show Outcome (copyFileUp (s.disk.statReal r) pp n s) _ _
+              unfold copyFileUp
+              rw [bind_err this]
+              exact hc
+        | some L =>
+          have hu : s.disk.upper.isSome := by rw [hup]; rfl
+          by_cases hd : (s.disk.statReal r).isDir = true
+          · simp only [hd, if_true]
+            have := createUpperDir_spec p s hc hu
+            cases hres : createUpperDir p s with
+            | ok u s' => rw [hres] at this; exact this
+            | err e s' => rw [hres] at this; exact this.cons
+          · simp only [hd, Bool.false_eq_true, if_false]
+            cases p with
+            | nil => exact hc
+            | cons n pp =>
+              simp only [Bool.not_eq_true] at hd
+              have := copyFileUp_spec hc hu n pp hm hmu hr hd
+              show Outcome (copyFileUp (s.disk.statReal r) pp n s) _ _
+              cases hres : copyFileUp (s.disk.statReal r) pp n s with
+              | ok u s' => rw [hres] at this; exact this
+              | err e s' => rw [hres] at this; exact this.cons
+
+theorem lookupSelf_loaded {s : St} (hc : Consistent s) {p : Path} {m : MNode} (hm : s.mem p = some m)
+    (hw : m.whiteout = false) (hlo : m.loaded = true) {r : Real} {rest : List Real} (hr : m.reals = r :: rest) :
+    lookupSelf p s = .ok m s := by
+  have hst := nodeStat_eq hc hm
+  rw [hr] at hst
+  unfold lookupSelf
+  rw [bind_ok (getNode_ok hm)]
+  simp only [hw, Bool.false_eq_true, if_false]
+  rw [bind_ok hst]
+  simp only [hlo, Bool.not_true, Bool.and_false, whenM_false]
+  rw [bind_ok (pure_eval () s), getNode_ok hm]
+
+/-- a loaded node without real inodes lists nothing -/
+theorem no_reals_no_kids {s : St} (hc : Consistent s) {p : Path} {m : MNode} (hm : s.mem p = some m)
+    (hlo : m.loaded = true) (hr : m.reals = []) : m.kids = [] := by
+  have hl := hc.toLocal
+  cases hk : m.kids with
+  | nil => rfl
+  | cons c ks =>
+    have := (hl.kidsLoaded p m hm hlo c).1 (by rw [hk]; simp)
+    exfalso; apply this
+    simp [localExp, hr, takeDirs, newFromReals]
+
+theorem doCreateLike_cons (pp : Path) (n : Name) (isMkdir : Bool) (meth : Method) (X : Node)
+    (hX : NewEntry isMkdir X) :
+    Triple (fun s => Consistent s ∧ ∃ pm, s.mem pp = some pm ∧ pm.loaded = true)
+      (doCreateLike pp n isMkdir (mkChildOf meth n X)) (fun _ => Consistent) Consistent := by
+  apply Triple.ofOutcome
+  intro s ⟨hc, pm, hpm, hlo⟩
+  have hl := hc.toLocal
+  unfold doCreateLike
+  rw [bind_ok (hasUpper_eval s)]
+  cases hupb : s.disk.upper.isSome with
+  | false => simp only [Bool.not_false, if_true]; exact hc
+  | true =>
+    simp only [Bool.not_true, Bool.false_eq_true, if_false]
+    rw [bind_ok (getNode_ok hpm)]
+    by_cases hw : pm.whiteout = true
+    · simp only [hw, if_true]; exact hc
+    · simp only [Bool.not_eq_true] at hw
+      simp only [hw, Bool.false_eq_true, if_false]
+      -- the old node of that name, if any
+      have hold : ∃ old, catchEnoent (lookupNode pp n) s = .ok old s ∧
+          (match old with
+            | none => n ∉ pm.kids
+            | some o => s.mem (n :: pp) = some o) := by
+        cases hr : pm.reals with
+        | nil =>
+          have hst := nodeStat_eq hc hpm
+          rw [hr] at hst
+          have hls : lookupSelf pp s = .err ENOENT s := by
+            unfold lookupSelf
+            rw [bind_ok (getNode_ok hpm)]
+            simp only [hw, Bool.false_eq_true, if_false]
+            rw [bind_err hst]
+          have : lookupNode pp n s = .err ENOENT s := by
+            unfold lookupNode
+            rw [bind_err hls]
+          refine ⟨none, by simp [catchEnoent, this], ?_⟩
+          rw [no_reals_no_kids hc hpm hlo hr]; simp
+        | cons r rest =>
+          have hls := lookupSelf_loaded hc hpm hw hlo hr
+          by_cases hn : n ∈ pm.kids
+          · obtain ⟨o, ho⟩ := hl.kidsMem pp pm n hpm hn
+            have : lookupNode pp n s = .ok o s := by
+              unfold lookupNode
+              rw [bind_ok hls]
+              simp [hn, getNode_ok ho]
+            exact ⟨some o, by simp [catchEnoent, this], ho⟩
+          · have : lookupNode pp n s = .err ENOENT s := by
+              unfold lookupNode
+              rw [bind_ok hls]
+              simp [hn, fail]
+            exact ⟨none, by simp [catchEnoent, this], hn⟩
+      obtain ⟨old, hcatch, holdp⟩ := hold
+      rw [bind_ok hcatch]
+      -- EEXIST for a visible node
+      have hcheck : (checkOld old s = .ok () s ∧ (∀ o, old = some o → o.whiteout = true)) ∨
+          (∃ e, checkOld old s = .err e s) := by
+        cases old with
+        | none => exact Or.inl ⟨rfl, fun o h => by cases h⟩
+        | some o =>
+          by_cases how : o.whiteout = true
+          · exact Or.inl ⟨by simp [checkOld, how, pure_eval], fun o' h => by cases h; exact how⟩
+          · exact Or.inr ⟨EEXIST, by simp [checkOld, how, fail]⟩
+      rcases hcheck with ⟨hck, howh⟩ | ⟨e, hck⟩
+      · rw [bind_ok hck]
+        have hcp := copyNodeUp_spec pp s hc
+        cases hres : copyNodeUp pp s with
+        | err e s' => rw [hres] at hcp; rw [bind_err hres]; exact hcp
+        | ok u s2 =>
+          rw [hres] at hcp
+          rw [bind_ok hres]
+          obtain ⟨pm2, hpm2, hpu2⟩ := hcp.up
+          obtain ⟨pm2', hpm2', hlo2, hk2⟩ := hcp.keep pp pm hpm
+          rw [hpm2] at hpm2'; cases hpm2'
+          have hq2 : s2.mem (n :: pp) = s.mem (n :: pp) := hcp.frame _ (by simp [isSuffixOf_cons_self])
+          show Outcome (createTail pp n isMkdir old meth X s2) _ _
+          refine createTail_cons hcp.cons pp n isMkdir old meth X hX hpm2 hpu2 (by rw [hlo2]; exact hlo) ?_
+          cases old with
+          | none => simpa [hk2] using holdp
+          | some o => exact ⟨by rw [hq2]; exact holdp, howh o rfl⟩
+      · rw [bind_err hck]; exact hc
+
+/-! ### whole operations: create, mkdir, mknod, symlink -/
+
+/-- the parent of the path resolves to a visible directory that is in the forest -/
+def DirAt (pp : Path) (s : St) : Prop :=
+  ∃ st, specStat s.disk pp = some st ∧ st.isDir = true ∧ ∃ m, s.mem pp = some m
+
+theorem resolveParent_spec (p : List Name) :
+    Triple Consistent (resolveParent p) (fun r s => Consistent s ∧ DirAt r.1 s) Consistent := by
+  unfold resolveParent
+  split
+  · exact Triple.fail' fun _ h => h
+  · rename_i pp' n _
+    intro s hs
+    have h := resolve_spec s.disk pp' s ⟨hs, rfl⟩
+    unfold Triple at *
+    refine ⟨fun a s' hf => ?_, fun e s' hf => ?_⟩
+    · -- success
+      cases hr : resolve pp' s with
+      | err e s1 => rw [bind_err hr] at hf; cases hf
+      | ok r s1 =>
+        obtain ⟨ppath, pst⟩ := r
+        obtain ⟨⟨hc1, hd1⟩, _, hsp, hmem⟩ := h.1 _ s1 hr
+        rw [bind_ok hr] at hf
+        by_cases hd : pst.isDir = true
+        · simp only [hd, Bool.not_true, Bool.false_eq_true, if_false] at hf
+          cases hf
+          exact ⟨hc1, pst, by rw [hd1]; exact hsp, hd, hmem⟩
+        · simp only [hd, Bool.not_false, if_true] at hf
+          cases hf
+    · cases hr : resolve pp' s with
+      | err e1 s1 =>
+        rw [bind_err hr] at hf; cases hf
+        exact (h.2 _ _ hr).1.1
+      | ok r s1 =>
+        obtain ⟨ppath, pst⟩ := r
+        rw [bind_ok hr] at hf
+        have hc1 := (h.1 _ s1 hr).1.1
+        by_cases hd : pst.isDir = true
+        · simp only [hd, Bool.not_true, Bool.false_eq_true, if_false] at hf
+          cases hf
+        · simp only [hd, Bool.not_false, if_true] at hf
+          cases hf; exact hc1
+
+theorem lookupSelf_ready (pp : Path) :
+    Triple (fun s => Consistent s ∧ DirAt pp s) (lookupSelf pp)
+      (fun _ s => Consistent s ∧ ∃ pm, s.mem pp = some pm ∧ pm.loaded = true) Consistent := by
+  intro s ⟨hc, st, hsp, hd, m, hm⟩
+  have h := lookupSelf_spec s.disk pp s ⟨⟨hc, rfl⟩, m, hm⟩
+  refine ⟨fun a s' hf => ?_, fun e s' hf => (h.2 e s' hf).1.1⟩
+  obtain ⟨⟨hc', _⟩, hm', _, hload⟩ := h.1 a s' hf
+  exact ⟨hc', a, hm', hload st hsp hd⟩
+
+theorem doLookup_cons (pp : Path) (n : Name) : Triple Consistent (doLookup pp n) (fun _ => Consistent) Consistent :=
+  doLookup_ro loadDirectory_cons pp n
+
+theorem freshId_ready (pp : Path) :
+    Triple (fun s => Consistent s ∧ ∃ pm, s.mem pp = some pm ∧ pm.loaded = true) freshId
+      (fun _ s => Consistent s ∧ ∃ pm, s.mem pp = some pm ∧ pm.loaded = true) Consistent := by
+  intro s hs
+  refine ⟨fun a s' h => ?_, fun e s' h => ?_⟩ <;> cases h
+  exact ⟨hs.1.congr rfl rfl, hs.2⟩
+
+theorem createOp_cons (p : List Name) (isMkdir : Bool) (meth : Method) (X : Name → Node)
+    (hX : ∀ n, NewEntry isMkdir (X n)) :
+    Triple Consistent (do
+      let (pp, n) ← resolveParent p
+      let _ ← lookupSelf pp
+      doCreateLike pp n isMkdir (mkChildOf meth n (X n))
+      let _ ← doLookup pp n
+      pure Reply.done) (fun _ => Consistent) Consistent := by
+  refine Triple.bind (resolveParent_spec p) fun r => ?_
+  obtain ⟨pp, n⟩ := r
+  refine Triple.bind (lookupSelf_ready pp) fun _ => ?_
+  refine Triple.bind (doCreateLike_cons pp n isMkdir meth (X n) (hX n)) fun _ => ?_
+  refine Triple.bind (doLookup_cons pp n) fun _ => ?_
+  exact Triple.pure' fun _ h => h
+
+theorem runOp_mkdir_cons (p : List Name) (mode : Nat) :
+    Triple Consistent (runOp (.mkdir p mode)) (fun _ => Consistent) Consistent := by
+  unfold runOp
+  exact createOp_cons p true .mkdir (fun _ => .dir mode 0 0)
+    (fun _ => ⟨rfl, rfl, fun _ => ⟨mode, rfl⟩, fun h => (by cases h)⟩)
+
+theorem runOp_symlink_cons (p : List Name) (t : Nat) :
+    Triple Consistent (runOp (.symlink p t)) (fun _ => Consistent) Consistent := by
+  unfold runOp
+  exact createOp_cons p false .symlink (fun _ => .symlink t)
+    (fun _ => ⟨rfl, rfl, fun h => (by cases h), fun _ => rfl⟩)
+
+theorem runOp_create_cons (p : List Name) (mode : Nat) :
+    Triple Consistent (runOp (.create p mode)) (fun _ => Consistent) Consistent := by
+  unfold runOp
+  refine Triple.bind (resolveParent_spec p) fun r => ?_
+  obtain ⟨pp, n⟩ := r
+  refine Triple.bind (lookupSelf_ready pp) fun _ => ?_
+  refine Triple.bind (freshId_ready pp) fun id => ?_
+  refine Triple.bind (doCreateLike_cons pp n false .create (.file id mode [] 0)
+    ⟨rfl, rfl, fun h => (by cases h), fun _ => rfl⟩) fun _ => ?_
+  refine Triple.bind (doLookup_cons pp n) fun _ => ?_
+  exact Triple.pure' fun _ h => h
+
+theorem runOp_mknod_cons (p : List Name) (mode : Nat) :
+    Triple Consistent (runOp (.mknod p mode)) (fun _ => Consistent) Consistent := by
+  unfold runOp
+  refine Triple.bind (resolveParent_spec p) fun r => ?_
+  obtain ⟨pp, n⟩ := r
+  refine Triple.bind (lookupSelf_ready pp) fun _ => ?_
+  refine Triple.bind (freshId_ready pp) fun id => ?_
+  refine Triple.bind (doCreateLike_cons pp n false .mknod (.other id mode)
+    ⟨rfl, rfl, fun h => (by cases h), fun _ => rfl⟩) fun _ => ?_
+  refine Triple.bind (doLookup_cons pp n) fun _ => ?_
+  exact Triple.pure' fun _ h => h
+
 end Fbr.Ovl
